@@ -39,6 +39,7 @@ class VWorld:
         self._dtors = {}
         self.stack = None
         self.F = {}
+        self.cnl = ['the node list of the referring instruction']
 
     def tables(self, q):
         return None
@@ -51,6 +52,10 @@ class VWorld:
 
     def destructor(self, o):
         """body of the destructor of a local object, when the parsed program has one (EnsurePop, CommitPushParams)"""
+        if o.cls == 'cnlguard':
+            return lambda g: self.cnl.pop()            # ContextNodeListPushAndPop: the list is the context node list while the guard lives
+        if o.cls in ('nodelist', 'strguard'):
+            return None
         cls = o.cls.split('<')[0]
         if cls not in self._dtors:
             short = cls.split('::')[-1]
@@ -62,8 +67,31 @@ class VWorld:
         k = c['k']
         n = c.get('n') or callee(c).split('::')[-1]
         cls = c.get('cls') or ''
+        if k == 'Ctor' and ('BorrowReturnMutableNodeRefList' in cls or 'GetCachedNodeList' in cls):
+            return Obj('nodelist', {'items': []})
+        if k == 'Ctor' and 'ContextNodeListPushAndPop' in cls and len(c.get('args', [])) == 2:
+            lst = m.ev(c['args'][1])
+            if not (isinstance(lst, Obj) and lst.cls == 'nodelist'):
+                raise Unsupported('ContextNodeListPushAndPop on %r' % (lst,))
+            self.cnl.append(lst.fields['items'])
+            return Obj('cnlguard', {})
+        if k == 'OpCall' and c.get('op') in ('->', '*') and len(c.get('args', [])) == 1:
+            v0 = m.ev(c['args'][0])
+            if isinstance(v0, Obj) and v0.cls == 'nodelist':
+                return v0
         if k == 'MCall':
             tgt = m.target_obj(c)
+            if isinstance(tgt, Obj) and tgt.cls == 'nodelist':
+                if n == 'addNode':
+                    tgt.fields['items'].append(m.ev(c['args'][0])); return 0
+                if n in ('setDocumentOrder', 'clear'):
+                    return 0
+                raise Unsupported('node list method ' + n)
+            if tgt == 'ECTX' and n == 'pushContextNodeList':
+                lst = m.ev(c['args'][0])
+                self.cnl.append(lst.fields['items'] if isinstance(lst, Obj) else lst); return 0
+            if tgt == 'ECTX' and n == 'popContextNodeList':
+                self.cnl.pop(); return 0
             if tgt == 'ECTX' and n in ('pushContextMarker', 'popContextMarker') and self.stack is not None:
                 sub = OMachine(self, {}, self.stack)
                 sub.fuel = 6000
@@ -88,6 +116,8 @@ class VWorld:
                     got = v[1] if isinstance(v, tuple) and v and v[0] == 'VAL' else None
                     self.nested -= 1
                     tgt.fields['evaluations'] += 1
+                    tgt.fields['seen_node_list'] = list(self.cnl[-1]) if isinstance(self.cnl[-1], list) else self.cnl[-1]
+                    tgt.fields['seen_node'] = m.ev(c['args'][1]) if len(c.get('args', [])) > 1 else None
                     return ('VAL', 'f(%s)' % got)
                 if n == 'getXPath':
                     return 'XPATH' if tgt.fields['select'] else 0
@@ -314,6 +344,8 @@ def run_rule(res, facts, tier):
                 b == a or (isinstance(b, dict) and isinstance(a, dict) and {k: v for k, v in b.items() if k != 'm_value'} == {k: v for k, v in a.items() if k != 'm_value'})
                 for b, a in zip(before, after))
             expect('L5 the stack after the evaluation is the stack before it, but for the kept value', same_but_value, True)
+            expect('L5 the global is evaluated with the root as current node, in a node list of just the root (11.4)', (var.fields.get('seen_node'), var.fields.get('seen_node_list')), ('DOC', ['DOC']))
+            expect('L5 the node list of the referring instruction is back afterwards', list(w.cnl), ['the node list of the referring instruction'])
             expect('L5 the local x is still what the template sees', lookup(st, 'x', False), 'LX' if local_kind in ('variable', 'both') else 'PX')
             second = lookup(st, 'h', False)
             expect('L5 second reference gives the kept value', (second, var.fields['evaluations']), ('f(GX)', 1))
